@@ -227,6 +227,17 @@ def run_sync_case(kind, timeout):
             finally:
                 marks.append("cancelled-or-finished")
 
+        def busy_then_done():
+            # returns a plain Future completed by a timer at 0.25 s; the loop is busy past that and past the
+            # run_sync timeout: when it gets back to its timers the Future is completed first (earlier deadline),
+            # so its result counts and nothing is cancelled
+            def burn():
+                w.loop.vtime += 3.0
+            f = asyncio.Future()
+            io.add_callback(burn)
+            io.call_later(0.25, f.set_result, "done-first")
+            return f
+
         def plain():
             marks.append("plain-ran")     # run_sync requires an awaitable or None
             return None
@@ -238,7 +249,7 @@ def run_sync_case(kind, timeout):
         def gen_style():
             yield gen.sleep(0.25)
             raise gen.Return("gen")
-        fn = {"returns": returns, "raises": raises, "sleeps": sleeps, "never": never, "plain": plain,
+        fn = {"returns": returns, "raises": raises, "sleeps": sleeps, "never": never, "plain": plain, "busy_then_done": busy_then_done,
               "plain_raises": plain_raises, "gen_style": gen_style}[kind]
         events._set_running_loop(None)
         try:
@@ -288,6 +299,7 @@ def run_sync_after_stopped(timeout):
 
 def judge_sync(kind, timeout, o):
     want = {"returns": ("ok", 42), "raises": ("exc", "Boom"), "sleeps": ("ok", "slept"), "plain": ("ok", None),
+            "busy_then_done": ("ok", "done-first"),
             "plain_raises": ("exc", "Boom"), "gen_style": ("ok", "gen")}.get(kind)
     bad = []
     if kind == "never":
@@ -368,7 +380,7 @@ class C38(Check):
                         st.violation("prog:" + sig, "program %r: %s" % (prog, msg), {"kind": "prog", "prog": [list(op) for op in prog]})
             st.setmax("max_program_length", L)
         elif part[0] == "sync":
-            for kind in ("returns", "raises", "sleeps", "never", "plain", "plain_raises", "gen_style"):
+            for kind in ("returns", "raises", "sleeps", "never", "plain", "plain_raises", "gen_style", "busy_then_done"):
                 for timeout in (None, 0.5, 2):
                     o = run_sync_case(kind, timeout)
                     st.ev()
